@@ -746,8 +746,44 @@ func (sel *Selection) Get() (val.Value, error) {
 
 	r.Write = false
 	var hnd ValueHandle
-	err := sel.get(&r, &hnd, true)
+	useDefault, err := sel.defaultInEffect(m)
+	if err != nil {
+		return nil, err
+	}
+	err = sel.get(&r, &hnd, useDefault)
 	return hnd.Val, err
+}
+
+// defaultInEffect: the default of a leaf inside a case of a choice counts when that case
+// is the one that holds data, or when none does and it is the default case of the
+// choice (RFC7950 Sec 7.9.3)
+func (sel *Selection) defaultInEffect(m meta.Leafable) (bool, error) {
+	holder := sel.parent
+	if holder == nil {
+		return true, nil
+	}
+	for p := m.Parent(); p != nil; p = p.Parent() {
+		kase, isCase := p.(*meta.ChoiceCase)
+		if !isCase {
+			break
+		}
+		choice := kase.Parent().(*meta.Choice)
+		chosen, err := holder.Node.Choose(holder, choice)
+		if err != nil {
+			if errors.Is(err, fc.NotImplementedError) {
+				return true, nil
+			}
+			return false, err
+		}
+		if chosen != nil && chosen != kase {
+			return false, nil
+		}
+		if chosen == nil && (!choice.HasDefault() || fmt.Sprint(choice.DefaultValue()) != kase.Ident()) {
+			return false, nil
+		}
+		p = choice
+	}
+	return true, nil
 }
 
 // GetValue let's you get the leaf value at the specified path or ident. Returns null if
